@@ -8,7 +8,7 @@ Alphabet : -C<name>=<value> for 3 options x 2 legal values, one illegal value pe
            options object/class other than the three options (read from the code under check)
 Histories: every argument sequence of length <= 2 (quick) / <= 3 (thorough)
            x output mode {stdout, -o absent file, -o pre-existing file with sentinel content}
-           x a pool of 4 input files (plain, non-ASCII, control flow, unconvertible script).
+           x a pool of 5 input files (plain, non-ASCII, control flow, unparser-sensitive shapes, unconvertible script).
            Each history is one real `python -m oneliner` process.
 Model    : options start at their defaults; the last legal -C per option wins; --unparser is applied
            after all -C; any illegal element makes the whole run an error.
@@ -39,6 +39,18 @@ FILES = {
     "plain.py": "x = 2\nif x > 1:\n    print('big', x)\nelse:\n    print('small')\nprint([i for i in range(3)])\n",
     "unicode.py": "s = 'h\u00e9llo \u20ac \u4e16\u754c'\nprint(s, len(s))\nd = {'k\u00e9y': 1}\nprint(d)\n",
     "flow.py": "t = 0\nfor i in range(5):\n    if i == 3:\n        break\n    if i == 1:\n        continue\n    t += i\nelse:\n    t = -1\nwhile t < 5:\n    t += 2\ndef f(a, b=2):\n    if a:\n        return a + b\n    return b\nprint(t, f(0), f(1))\n",
+    # shapes whose TEXT differs between the two unparsers and the wrappers: lambdas/defs with every parameter kind and
+    # distinct defaults, nested f-strings and quotes, slices, starred calls, comparison chains, a class with decorators
+    "shapes.py": (
+        "def g(a, b=3, /, c=4, *d, e, f=6, **h):\n    return (a, b, c, d, e, f, sorted(h.items()))\n"
+        "lam = lambda p=1, q=2, /, r=3, *, s=4: (p - q) * (r - s)\n"
+        "print(g(1, e=5), g(1, 2, 3, 4, e=5, z=0), lam(), lam(7), lam(7, 8, r=1))\n"
+        "w = {'k\"': [1, 2, 3, 4]}\n"
+        "KEY = 'k\"'\nprint(f\"{w[KEY][1:3]!r:>12} {lam(2)!s:{'<'}{5}}|{'q'}\", w[KEY][::-1], *w[KEY][:2], sep='-')\n"
+        "def deco(c):\n    c.tag = -1 ** 2 + (-1) ** 2\n    return c\n"
+        "@deco\nclass K:\n    x = 1 if not 0 < 1 <= 2 else (yield_ := 2)\n    def m(self, *a, k=(1, 2)):\n        return [i for i in a if i] or k\n"
+        "print(K.tag, K.x, K().m(0, 3), K().m(), (lambda: (yield_2 := 5))(), 2 ** -1, not (1 and 0), -(1 + 2))\n"
+    ),
     "unconvertible.py": "try:\n    x = 1\nexcept Exception:\n    pass\nprint(x)\n",
 }
 SENTINEL = b"SENTINEL-previous-content\n"
